@@ -96,6 +96,8 @@ type Exec struct {
 	sliceBound int
 	timers     []*Obj
 	splitVars  []string
+	assumeNoPanic bool
+	skipStub   *ssa.Function
 	harness    string
 	funcs      map[string]int
 	finfo      map[*ssa.Function]*FuncInfo
@@ -169,6 +171,13 @@ func (x *Exec) panicIf(fr *Frame, g *Term, kind string, p token.Pos) {
 	}
 	ag := x.alive(g)
 	if ag.isFalse() {
+		return
+	}
+	if x.assumeNoPanic {
+		// implicit run-time checks are not obligations of this harness: a path that would panic is simply not
+		// a path on which the assertions are reached (C13 owns panic-freedom); counted for the evidence
+		x.warnings["implicit run-time checks assumed to hold (not obligations of this harness)"]++
+		x.dead = mkOr(x.dead, g)
 		return
 	}
 	pos := x.framePos(fr, p)
@@ -398,7 +407,9 @@ func (x *Exec) callFunction(caller *Frame, fn *ssa.Function, args []Value, binds
 		// dependency initialisers are run lazily, on first access to one of their globals
 		return nil
 	}
-	if st := x.findStub(fn, name); st != nil {
+	skip := x.skipStub == fn
+	x.skipStub = nil
+	if st := x.findStub(fn, name); st != nil && !skip {
 		x.stubsUsed[name]++
 		fr := caller
 		save := fr.cur
@@ -450,6 +461,12 @@ func (x *Exec) callFunction(caller *Frame, fn *ssa.Function, args []Value, binds
 		return x.zeroResults(fn.Signature)
 	}
 	return res
+}
+
+// callFunctionNoStub runs the real body of a function that has a conditional stub
+func (x *Exec) callFunctionNoStub(fr *Frame, fn *ssa.Function, args []Value, p token.Pos) Value {
+	x.skipStub = fn
+	return x.callFunction(fr, fn, args, nil, fr.cur, p)
 }
 
 func (x *Exec) zeroResults(sig *types.Signature) Value {
@@ -972,8 +989,40 @@ func (x *Exec) doAppend(fr *Frame, sv, tv Value, typ types.Type, p token.Pos) Va
 			return VSlice{[]SliceAlt{{g: ts.True, obj: a.obj, path: a.path, off: a.off, len: mkConst(64, uint64(l+n)), cap: a.cap}}}
 		}
 	}
+	// in-place path for a symbolic length: if even the largest possible length fits the capacity, the elements
+	// are written with guarded stores at every possible position and no new backing array is created; this keeps
+	// a slice that is appended to under many different guards a single object (same semantics as Go when the
+	// capacity suffices)
+	if len(s.alts) == 1 && s.alts[0].obj != nil {
+		a := s.alts[0]
+		lo, hi := a.len.lo, a.len.hi
+		if a.len.isConst() {
+			lo, hi = a.len.sval(), a.len.sval()
+		}
+		if lo >= 0 && hi >= lo && hi-lo <= 64 && int(hi)+len(tcells) <= a.cap {
+			for pos := lo; pos <= hi; pos++ {
+				at := mkEq(a.len, mkConst(64, uint64(pos)))
+				if at.isFalse() {
+					continue
+				}
+				for j := 0; j < len(tcells); j++ {
+					g := mkAnd(fr.cur, at, mkCmp(OUlt, mkConst(64, uint64(j)), tlen))
+					if g.isFalse() {
+						continue
+					}
+					a.obj.val = setPath(a.obj.val, appendPath(a.path, a.off+int(pos)+j), g, tcells[j])
+				}
+			}
+			return VSlice{[]SliceAlt{{g: ts.True, obj: a.obj, path: a.path, off: a.off, len: mkBin(OAdd, a.len, tlen), cap: a.cap}}}
+		}
+	}
 	scells, slen := x.sliceCells(s)
 	ncap := len(scells) + len(tcells)
+	if ncap < 8 {
+		ncap = 8
+	} else {
+		ncap *= 2
+	}
 	if slen.isConst() && tlen.isConst() {
 		// Go-like growth so that subsequent appends can be in place
 		ncap = int(slen.sval() + tlen.sval())
@@ -1220,7 +1269,7 @@ func (x *Exec) valEq(a, b Value) *Term {
 		r := ts.False
 		for _, x1 := range p.alts {
 			for _, y1 := range q.alts {
-				if x1.fn == nil && y1.fn == nil {
+				if x1.fn == nil && y1.fn == nil && x1.native == nil && y1.native == nil {
 					r = mkOr(r, mkAnd(x1.g, y1.g))
 				}
 			}
